@@ -425,6 +425,10 @@ class Facts:
                     o = rv['op']
                     if 'int' in o:
                         return ('int', int(o['int']))
+                    if o.get('named'):
+                        arr = self.const_array(o['named'])
+                        if arr is not None:
+                            return ('array', arr)
                     return ('lit', o.get('s'))
                 if rv['r'] == 'agg':
                     k = rv['kind']
@@ -436,6 +440,27 @@ class Facts:
                     if k['a'] == 'array':
                         return ('array', [int(o['int']) if 'int' in o else None for o in rv['ops']])
         return None
+
+    def const_array(self, name):
+        """the integer elements of a module-level `const NAME: [uN; K] = [ ... ];`, read from the item's source text (the
+        driver records the item's position but does not evaluate array constants)"""
+        c = self.consts.get(name) or next((v for k, v in self.consts.items() if k.endswith('::' + name.split('::')[-1])), None)
+        if c is None or not re.match(r'^\[[ui](8|16|32|64|128|size); *\d+\]$', str(c.get('ty', ''))):
+            return None
+        try:
+            import extract
+            with open(os.path.join(extract.REPO, c['span']['file'])) as fh:
+                lines = fh.read().split('\n')
+            txt = '\n'.join(lines[c['span']['line'] - 1:c['span']['line'] + 400])
+            m = re.search(r'=\s*\[(.*?)\]\s*;', txt, re.S)
+            if not m:
+                return None
+            body = re.sub(r'//[^\n]*', '', m.group(1))
+            vals = [int(re.sub(r'_|[ui](8|16|32|64|128|size)$', '', x.strip()), 0) for x in body.split(',') if x.strip()]
+            want = int(re.search(r';\s*(\d+)\]', c['ty']).group(1))
+            return vals if len(vals) == want else None
+        except Exception:
+            return None
 
     # ----- call graph
     def find_impls(self, trait, self_ty=None, item=None, trait_arg=None):
